@@ -87,6 +87,7 @@ structure DState where
   pending : Bytes := []
   consumed : Nat := 0
   lastRows : Array String := #[]     -- last printed rows: main rows then alt rows
+  rbuf : RBuf := RBuf.init
 
 def rowsOf (t : Term) : Array String :=
   ((t.main.grid.map rowStr) ++ (t.alt.grid.map rowStr)).toArray
@@ -215,6 +216,22 @@ partial def loop (wt : WidthTable) (h : IO.FS.Stream) (d : DState) : IO Unit := 
     let es := match e with | .nil => "nil" | .injected => "injected" | .shortWrite => "short write"
     let o ← IO.getStdout
     o.putStrLn s!"{n} {es} {hexOrDash del}"; o.flush
+    loop wt h d
+  | ["rbuf", "init"] => loop wt h { d with rbuf := RBuf.init }
+  | ["rbuf", "fill", hx] =>
+    let r := d.rbuf.fill ((bytesOfHex hx).getD [])
+    let o ← IO.getStdout
+    o.putStrLn s!"{r.start} {r.stop} {r.data.length} {hexOrDash r.view}"; o.flush
+    loop wt h { d with rbuf := r }
+  | ["rbuf", "consume", n] =>
+    let r := d.rbuf.consume n.toNat!
+    let o ← IO.getStdout
+    o.putStrLn s!"{r.start} {r.stop} {r.data.length} {hexOrDash r.view}"; o.flush
+    loop wt h { d with rbuf := r }
+  | ["ansi", fg, bg, ul] =>
+    let st : Style := ⟨BitVec.ofNat 32 fg.toNat!, BitVec.ofNat 32 bg.toNat!, BitVec.ofNat 32 ul.toNat!⟩
+    let o ← IO.getStdout
+    o.putStrLn (hexOfBytes st.ansiEscape); o.flush
     loop wt h d
   | ["end"] => loop wt h d
   | [] => loop wt h d
